@@ -130,6 +130,107 @@ def implicit_raises(prog, rep):
     return it
 
 
+SAFE_METHODS = {
+    # total on the str / list / dict / logger receivers the front-end uses them on
+    "append", "extend", "debug", "info", "warning", "error", "find", "rfind", "count", "isalpha", "isdecimal", "isdigit", "isalnum", "isspace",
+    "isidentifier", "isoformat", "items", "keys", "values", "get", "replace", "split", "rsplit", "splitlines", "strip", "lstrip", "rstrip", "startswith", "endswith",
+    "lower", "upper", "casefold", "title", "join", "format", "copy", "partition", "rpartition", "removeprefix", "removesuffix", "setdefault", "update",
+    "check", "parse", "interpret",  # token-class dispatch: analysed by the abstract interpreter
+    "buckets", "parameters",
+}
+SAFE_NAMES = {"enumerate", "len", "isinstance", "issubclass", "type", "zip", "range", "sorted", "list", "dict", "tuple", "set", "frozenset", "str", "repr", "bool", "any", "all", "reversed", "print", "iter", "id", "abs", "hasattr", "callable", "int", "f", "signature", "wraps", "takewhile", "super"}
+SAFE_QUALIFIED = {"iso8601.parse_date", "logging.getLogger", "itertools.takewhile", "re.compile", "re.escape", "str.isdecimal", "str.isalpha", "str.isdigit"}
+
+
+def external_calls(prog, rep):
+    """a call that leaves the analysed code must be known not to raise on the values the front-end gives it"""
+    from ..model import ClassInfo, FuncInfo
+
+    good = query_errors(prog)
+    n = 0
+    for fi in scope(prog):
+        for c in walk_with_nested_exprs(fi.node):
+            if not isinstance(c, ast.Call) or prog.resolve_call(c, fi):
+                continue
+            f = c.func
+            name = norm(f)
+            ok = False
+            if isinstance(f, ast.Name):
+                r = prog.lookup(fi, f.id)
+                ok = isinstance(r, (FuncInfo, ClassInfo)) or f.id in SAFE_NAMES or f.id in good or f.id in fi.params
+            elif isinstance(f, ast.Attribute):
+                root = f.value
+                while isinstance(root, ast.Attribute):
+                    root = root.value
+                if isinstance(root, ast.Name) and root.id in fi.mod.imports and not (root.id in ("logger",)):
+                    ok = name in SAFE_QUALIFIED or name.split(".")[0] in ("logger", "logging")
+                else:
+                    ok = f.attr in SAFE_METHODS
+            elif isinstance(f, ast.Subscript):
+                ok = True  # functions[name](...): the registry call, covered by KEY-GUARD
+            n += 1
+            if ok:
+                continue
+            # inside a try that turns everything into a query error?
+            p_, child, covered = parent(c), c, False
+            while p_ is not None and p_ is not fi.node:
+                if isinstance(p_, ast.Try) and any(child is x or any(child is y for y in ast.walk(x)) for x in p_.body):
+                    for h in p_.handlers:
+                        broad = h.type is None or norm(h.type) in ("Exception", "BaseException")
+                        last = h.body[-1] if h.body else None
+                        if broad and isinstance(last, ast.Raise) and last.exc is not None and norm(last.exc.func if isinstance(last.exc, ast.Call) else last.exc) in good:
+                            covered = True
+                child, p_ = p_, parent(p_)
+            rep.check(covered, "IMPLICIT-RAISE", fi.short, f"call {name}(...)", "known not to raise / wrapped into a query error", f"`{norm(c)[:70]}` leaves the analysed code: nothing is known about the exceptions `{name}` raises on malformed input (e.g. UnicodeDecodeError, ValueError), and no enclosing handler turns them into a query error", fi.loc(c))
+    rep.floor("external call sites classified", n, 40)
+
+
+def one_shot_iterators(prog, rep):
+    """a wrapper that is called once per query must not consume an iterator that was created once, when it was defined"""
+    rep.rule("ONE-SHOT", "no inner function in scope iterates over a name of its enclosing function that is bound there to a one-shot iterator (generator expression, iter / zip / map / filter / enumerate / reversed object): it is exhausted by the first call, so the guards the loop implements (type and arity checks) silently stop running")
+    n = 0
+    for fi in scope(prog):
+        if fi.outer is None:
+            continue
+        local = set(fi.params) | {x.id for x in ast.walk(fi.node) if isinstance(x, ast.Name) and isinstance(x.ctx, ast.Store)}
+        for node in walk_with_nested_exprs(fi.node):
+            its = []
+            if isinstance(node, ast.For):
+                its.append(node.iter)
+            elif isinstance(node, (ast.ListComp, ast.GeneratorExp, ast.SetComp, ast.DictComp)):
+                its += [g_.iter for g_ in node.generators]
+            elif isinstance(node, ast.Call) and norm(node.func) in ("list", "tuple", "next", "sorted", "set", "any", "all", "sum", "dict") and node.args:
+                its.append(node.args[0])
+            for it in its:
+                if not (isinstance(it, ast.Name) and it.id not in local):
+                    continue
+                outer = fi.outer
+                while outer is not None:
+                    defs = local_defs(outer, it.id)
+                    if defs:
+                        break
+                    outer = outer.outer
+                if outer is None:
+                    continue
+                n += 1
+                for d in defs:
+                    v = d.value if isinstance(d, (ast.Assign, ast.AnnAssign)) else None
+                    one_shot = isinstance(v, ast.GeneratorExp) or (isinstance(v, ast.Call) and norm(v.func) in ("iter", "zip", "map", "filter", "enumerate", "reversed", "itertools.chain", "chain"))
+                    rep.check(not one_shot, "ONE-SHOT", fi.short, f"iteration over `{it.id}`", "a re-iterable object", f"`{it.id}` is bound in {outer.short} to `{norm(v)[:60]}`, a one-shot iterator, and consumed inside {fi.short}, which runs once per call: after the first call the loop body (the per-argument checks) never runs again, so wrongly typed or missing arguments reach the built-in and foreign exceptions (AttributeError, TypeError) escape", fi.loc(it))
+    rep.extra["closure_iterations_checked"] = n
+
+
+def bucket_guard(prog, rep):
+    """_verify_bucket_exists is what keeps Datastore.__getitem__'s KeyError unreachable: it must ask the store"""
+    from ..cfg import membership
+
+    fi = prog.func("_verify_bucket_exists", "aw_query.functions")
+    ds, bn = fi.params[0], fi.params[1]
+    g = cfg_of(fi)
+    reach = g.reach_filtered(g.entry, lambda u, v, lab: membership(lab, bn, f"{ds}.buckets()") is not True and membership(lab, bn, f"{ds}.buckets().keys()") is not True)
+    rep.check(g.exit not in reach, "RAISE-CLASS", fi.short, "returns only for existing buckets", f"every normal return lies behind `{bn} in {ds}.buckets()`", f"_verify_bucket_exists can return normally without `{bn} in {ds}.buckets()` having been established (e.g. on the word of a cache such as bucket_instances, which is not told about deletions made elsewhere): the bucket access that follows raises KeyError or answers for a bucket that does not exist instead of raising a query error", fi.loc())
+
+
 def guarded_lookups(prog, rep):
     rep.rule("KEY-GUARD", "every dict lookup namespace[k] / functions[k] in scope is dominated by the matching membership test (or k is one of NAME/STARTTIME/ENDTIME, which query() sets unconditionally before the first statement and nothing deletes); the typecheck wrapper indexes args[i] only under i < len(args); the registry call sits in a try whose TypeError handler raises an interpret error")
     for fi in scope(prog):
@@ -269,7 +370,10 @@ def check(prog, rep):
     rep.trusted_base = ["str.strip / slicing / find semantics as modelled by the abstract domain", "int(s) accepts every non-empty all-decimal string", "C11-PARTITION (remainder = input minus a non-empty token) for PROGRESS"]
     rep.not_decided = ["exceptions raised inside built-in bodies (bad regex, missing key in simplify_string, iso8601.ParseError in query_bucket_eventcount after a query re-binds STARTTIME): outside 'parsing or name/arity/type resolution'", "RecursionError on pathological nesting (resource)"]
     explicit_raises(prog, rep)
+    bucket_guard(prog, rep)
     implicit_raises(prog, rep)
+    external_calls(prog, rep)
+    one_shot_iterators(prog, rep)
     guarded_lookups(prog, rep)
     termination(prog, rep)
     rep.note("observation: q2_query_bucket_eventcount does not translate iso8601.ParseError (only reachable after a query re-binds STARTTIME/ENDTIME to a non-timestamp); q2_query_bucket does")
@@ -289,6 +393,9 @@ VARIANTS = [
     ("B RETURN lookup unguarded", Q2, "    if \"RETURN\" not in namespace:\n        raise QueryParseException(\n            \"Query doesn't assign the RETURN variable, nothing to respond\"\n        )\n", "", "KEY-GUARD"),
     ("B dict value class not checked", Q2, "            if not val_t:\n                raise QueryParseException(\"Dict expected a value, got nothing\")\n", "", ["IMPLICIT-RAISE", "PROGRESS"]),
     ("B TypeError re-raised unless its message looks like an arity error", Q2, "        except TypeError:\n            raise QueryInterpretException(", "        except TypeError as e:\n            if \"positional arguments\" not in str(e):\n                raise\n            raise QueryInterpretException(", "RAISE-CLASS"),
+    ("B existence check trusts the handle cache", QF, "    if bucketname in datastore.buckets():\n        return", "    if bucketname in datastore.bucket_instances:\n        return\n    if bucketname in datastore.buckets():\n        return", "RAISE-CLASS"),
+    ("B string literals decoded with codecs.decode (UnicodeDecodeError escapes)", Q2, "        string = string[1:-1]\n        return QString(string)", "        string = string[1:-1]\n        import codecs\n        string = codecs.decode(string, \"unicode_escape\")\n        return QString(string)", "IMPLICIT-RAISE"),
+    {"name": "B typecheck loop over an iterator created at decoration time", "edits": [(QF, "    sig = signature(f)\n\n    @wraps(f)\n    def g(*args, **kwargs):", "    sig = signature(f)\n    numbered = enumerate(sig.parameters)\n\n    @wraps(f)\n    def g(*args, **kwargs):"), (QF, "        for i, p in enumerate(sig.parameters):\n            param = sig.parameters[p]\n", "        for i, p in numbered:\n            param = sig.parameters[p]\n")], "expect": "ONE-SHOT"},
     ("OK len test spelled with not", Q2, "    if len(string) == 0:\n        return (None, \"\"), string\n", "    if not string:\n        return (None, \"\"), string\n", "ok"),
     ("OK guard order swapped", Q2, "            if not entries_str or entries_str[0] != \":\":", "            if len(entries_str) == 0 or entries_str[0] != \":\":", "ok"),
     ("OK range test flipped", QF, "                if i >= len(args):", "                if len(args) <= i:", "ok"),
